@@ -252,7 +252,8 @@ PROPS = {
              'over lists of 0..40 lines, window heights 5..24, three layouts, --multi limits 0/1/2/3/unlimited, --cycle, --tac, '
              '--no-sort, --exact; non-trivial = >= 5 steps on >= 2 lines; distinct = distinct sessions'
              '; a directed template of word motions / kills / yank over words made of non-ASCII letters and digits'
-             '; a directed template with reload (of the same input): selections and exclusions are dropped, the query and the cursor stay',
+             '; a directed template with reload (of the same input): selections and exclusions are dropped, the query and the cursor stay'
+             '; change-multi (the limit threaded through the action list)',
         trusted=['tmux', 'the --listen endpoint (state is observed after the renderer has settled: three equal consecutive GETs)',
                  'what matching returns for a query is the C01/C04 model (parameter resultsOf of the session model)'],
         level_text='Lean 4 theorems over the session model, for every history of action lists and every option set: the query cursor '
@@ -445,7 +446,8 @@ PROPS = {
              'option twice, an option and its --no- twin, two options writing the same fields, in one vector or environment '
              'then command line, compared on a structural dump of all fields of Options; arbitrary words (empty, NUL-free '
              'junk, huge numbers) where a value may be expected; argv order / override noise in the filter area; non-trivial = a structured bind string, or an '
-             'accepted option vector of >= 2 arguments; distinct = distinct case lines',
+             'accepted option vector of >= 2 arguments; distinct = distinct case lines'
+             '; every text-valued drawing option with values at the edges of its width check (zero-width clusters, wide and combining characters, invalid UTF-8)',
         trusted=['the key-name table (parseKeyChords is used to resolve the key names of the intended structure)',
                  'go-shellwords for splitting $FZF_DEFAULT_OPTS', 'the ~150 option value parsers outside the modelled vocabulary '
                  '(exercised for "no crash" only)'],
